@@ -139,6 +139,21 @@ def run(rep, tier, props):
         if p is None or abs(p) > 1e7:      # infeasible / unbounded primal (a solver may report a huge "optimum")
             stats['primal_unsolved'] += 1
             continue
+        if (r.get('pxmax') or 0) > 1e4:
+            # an "optimal" point with components beyond 1e4 in a family whose data are single digits: the primal is unbounded
+            # along an exponential direction (e.g. min -x0, exp(x0) <= x1 + 4, x1 free above) and ECOS stopped on its tolerances
+            stats['primal_unsolved'] += 1
+            stats['primal_unbounded_looking'] = stats.get('primal_unbounded_looking', 0) + 1
+            continue
+        inexact = any('close' in (st_ or '').lower() or 'inaccurate' in (st_ or '').lower() for st_ in (r.get('pstatus'), r.get('dstatus')))
+        if inexact:
+            # a reduced-accuracy status of the solver is not an optimal value: use the second solver's pair when there is one
+            if r.get('pval2') is not None and r.get('dval2') is not None:
+                p, d = r['pval2'], r['dval2']
+            else:
+                rep.inconclusive += 1
+                stats['inexact_status'] = stats.get('inexact_status', 0) + 1
+                continue
         if d is None:
             d2, p2 = r.get('dval2'), r.get('pval2')
             if job.get('second') and d2 is not None:
